@@ -328,6 +328,9 @@ class DFXPWriter(BaseWriter):
         :rtype: str
         """
         dfxp = BeautifulSoup(DFXP_BASE_MARKUP, 'lxml-xml')
+        # A span left open by an earlier write (unbalanced style nodes) must
+        # not leak a stray closing tag into this document
+        self.open_span = False
 
         langs = caption_set.get_languages()
         if force in langs:
